@@ -395,7 +395,7 @@ def dump_item(it) -> List[Any]:
         groups = None
         if it.groups is not None:
             groups = [dump_group(g) for g in it.groups]
-        return ["page", str(it.pageid), fmt_bbox(it.bbox), fmt_d(it.rotate), [dump_item(c) for c in it], groups]
+        return ["page", fmt_d(it.pageid) if type(it.pageid) is int else str(it.pageid), fmt_bbox(it.bbox), fmt_d(it.rotate), [dump_item(c) for c in it], groups]
     if isinstance(it, (L.LTLine, L.LTRect)) and len(PTSLOG) < 400:
         PTSLOG.append((list(it.pts), it.get_pts()))      # LTLine / LTRect inherit get_pts (not written by the converter)
     if isinstance(it, L.LTLine):
@@ -1049,6 +1049,16 @@ def eval_case(spec, la, strip: bool, codecs: List[str], want_model: bool = True,
                     fail("binary sink decoded with its codec differs from the text sink (text output with showpageno)",
                          exp_text, dec, otype="text", codec=codec, stage="sink", showpageno=True)
         if want_model and only is None:
+            def cs_names(n, acc):
+                if n[0] == "char":
+                    acc.add(n[3])
+                idx = {"page": 4, "figure": 3, "textline": 2, "textbox": 4}.get(n[0])
+                for c in (n[idx] if idx is not None else []):
+                    cs_names(c, acc)
+                return acc
+            for nm in sorted(set().union(*[cs_names(p, set()) for p in ref]) if ref else []):
+                if all(not (0xD800 <= ord(ch) <= 0xDFFF) for ch in nm):
+                    res.req.append(("csname " + cps(nm), "tie", "in", {"op": "csname", "name": nm, "spec": spec, **cfg}))
             for v in PTSLOG[:3]:
                 q = fmt_request("pts", v)
                 if q is not None:
